@@ -7,7 +7,10 @@ HERE = os.path.dirname(os.path.abspath(__file__))
 REPO = os.environ.get("VERIF_REPO", "/repo")
 pid, obl, inputs = sys.argv[1], sys.argv[2], json.loads(sys.argv[3])
 unit = obl.split(".", 1)[0]
-drivers = {"lib": ("replay_lib_test.go.txt", REPO, {}), }
+drivers = {"lib": ("replay_lib_test.go.txt", REPO, {}),
+           "api": ("replay_api_test.go.txt", os.path.join(REPO, "internal", "app", "api"), {})}
+if pid in ("C18", "C19") and unit == "lib":
+    unit = "api"  # a library obligation failed under a REST property: replay through the REST layer
 if unit not in drivers:
     print("no replay driver for unit", unit); sys.exit(0)
 fname, pkgdir, extra_env = drivers[unit]
